@@ -65,6 +65,7 @@ impl SwiftField for Field58A {
 
         // Check for optional party identifier on first line
         if !lines.is_empty() && lines[0].starts_with('/') {
+            parse_party_identifier(lines[0])?;
             party_identifier = Some(lines[0][1..].to_string()); // Strip the leading / (format prefix)
             bic_line_idx = 1;
         }
